@@ -907,3 +907,44 @@ mut('c18-unicode-word-class', ['C18'], M,
     [("mbr_re = re.compile('[^A-Za-z0-9_]')", "mbr_re = re.compile(r'\\W')"),
      ("invalid_obj_path_re = re.compile('[^a-zA-Z0-9_/]')", "invalid_obj_path_re = re.compile(r'[^\\w/]')")], ['C18.D1'],
     note='round-2 seed: \\w is Unicode-aware on str patterns')
+
+
+# ---- behaviour-preserving refactorings written by independent sub-agents -------
+# (benign/*.diff, each with a one-line description in the .txt next to it; the
+# agents saw only the txdbus source, ran the suite on each, and many also ran a
+# differential harness).  Every check must stay silent on every one of them.
+_FILE_PROPS = {
+    'marshal.py': ['C01', 'C02', 'C03', 'C05', 'C18', 'C19', 'C20'],
+    'message.py': ['C03', 'C08', 'C10', 'C11', 'C14', 'C18', 'C20'],
+    'protocol.py': ['C04', 'C06', 'C07', 'C20', 'C03'],
+    'authentication.py': ['C06', 'C07'],
+    'client.py': ['C08', 'C09', 'C11', 'C12', 'C13'],
+    'router.py': ['C12', 'C14'],
+    'endpoints.py': ['C09'],
+    'objects.py': ['C09', 'C10', 'C11', 'C12', 'C16', 'C17'],
+    'bus.py': ['C06', 'C12', 'C13', 'C14', 'C11'],
+    'introspection.py': ['C11', 'C15', 'C16'],
+    'interface.py': ['C11', 'C15', 'C19', 'C10', 'C17'],
+}
+
+
+def _load_benign_patches():
+    import glob
+    import os
+    import re
+    d = os.path.join(os.path.dirname(os.path.dirname(
+        os.path.abspath(__file__))), 'benign')
+    for p in sorted(glob.glob(os.path.join(d, '*.diff'))):
+        text = open(p, encoding='utf-8').read()
+        files = sorted(set(re.findall(r'^\+\+\+ b/txdbus/(\S+)', text, re.M)))
+        props = sorted({q for f in files for q in _FILE_PROPS.get(f, [])})
+        note = ''
+        t = p[:-5] + '.txt'
+        if os.path.exists(t):
+            note = open(t, encoding='utf-8').read().strip()[:200]
+        MUTANTS.append({'id': 'ok-' + os.path.basename(p)[:-5],
+                        'kind': 'benign', 'props': props, 'file': None,
+                        'edits': [], 'expect': [], 'note': note, 'patch': p})
+
+
+_load_benign_patches()
